@@ -15,6 +15,7 @@ import (
 
 	"pgregory.net/rapid"
 
+	secp256k1 "gitlab.com/yawning/secp256k1-voi"
 	"gitlab.com/yawning/secp256k1-voi/secec"
 	"gitlab.com/yawning/secp256k1-voi/verifharness/gen"
 	"gitlab.com/yawning/secp256k1-voi/verifharness/lib"
@@ -180,6 +181,11 @@ func propReaderFailure(t *rapid.T) {
 	rd := &gen.ScriptedReader{Data: content, FailAfter: j}
 	var ek string
 	rd.Err, rd.ErrWithData, ek = gen.FailureKind(t, "fail") // also io.EOF: a drained bytes.Reader / finite pool
+	if rapid.IntRange(0, 5).Draw(t, "panics") == 0 {
+		rd.Err, rd.ErrWithData, ek = gen.ErrPanic, false, "panic" // the source panics, the caller recovers
+	}
+	// half of the keys are ephemeral (the failing call is their last use), the others are used again
+	reuse := rapid.Bool().Draw(t, "reuse")
 	if rapid.Bool().Draw(t, "chunked") {
 		rd.Chunks = rapid.SliceOfN(rapid.IntRange(1, 33), 1, 4).Draw(t, "chunks")
 	} else if rapid.IntRange(0, 3).Draw(t, "collecting") == 0 {
@@ -189,7 +195,7 @@ func propReaderFailure(t *rapid.T) {
 	// the reader is handed over as the argument, or the argument is nil and the reader is what the process-wide
 	// default source (crypto/rand.Reader) is at that moment
 	source := gen.Sampled([]string{"argument", "argument", "process-default"}).Draw(t, "source")
-	stat.Case("readerfail", []string{fmt.Sprintf("j:%d", j), "api:" + api, "error:" + ek, "source:" + source}, true, []byte(fmt.Sprintf("%d|%x|%x|%v|%s|%s|%s", j, d, digest, rd.Chunks, api, ek, source)), func() any {
+	stat.Case("readerfail", []string{fmt.Sprintf("j:%d", j), "api:" + api, "error:" + ek, "source:" + source, fmt.Sprintf("key-reused:%v", reuse)}, true, []byte(fmt.Sprintf("%d|%x|%x|%v|%s|%s|%s|%v", j, d, digest, rd.Chunks, api, ek, source, reuse)), func() any {
 		return map[string]any{"fail_after": j, "d": d.Text(16), "chunks": rd.Chunks, "api": api, "error": ek, "source": source}
 	})
 	key := lib.PrivKey(d)
@@ -208,13 +214,44 @@ func propReaderFailure(t *rapid.T) {
 			err, gotSig = e, sig != nil
 		}
 	}
-	if source == "argument" {
-		call(rd)
-	} else {
-		gen.WithProcessEntropy(rd, func() { call(nil) })
+	panicked := lib.Catch(func() {
+		if source == "argument" {
+			call(rd)
+		} else {
+			gen.WithProcessEntropy(rd, func() { call(nil) })
+		}
+	})
+	if panicked != nil && (ek != "panic" || j >= 32) {
+		t.Fatalf("%s panicked: %v", api, panicked)
+	}
+	if reuse {
+		// The same key object signs again, deterministically: whatever the failed (or panicked and
+		// recovered) call left behind, the nonce is the RFC 6979 function of key and digest, and the
+		// call returns.
+		defer func() {
+			digest2 := gen.Bytes(t, 32, 32, "digest2")
+			wr, ws, wid, _ := ref.RFC6979Sign(d, digest2)
+			ws, neg := ref.LowS(ws)
+			if neg {
+				wid ^= 1
+			}
+			var r2, s2 *secp256k1.Scalar
+			var v2 byte
+			var err2 error
+			returned, p2, stuck := lib.Watch(func() { r2, s2, v2, err2 = key.SignRaw(secec.RFC6979SHA256(), digest2) })
+			if !returned {
+				t.Fatalf("SignRaw on a key whose previous entropy source failed (%s after %d bytes) never returns: the call is parked with nobody left to wake it: %s", ek, j, stuck)
+			}
+			if p2 != nil || err2 != nil {
+				t.Fatalf("SignRaw(RFC 6979) after a failed entropy source (%s after %d bytes): panic=%v err=%v", ek, j, p2, err2)
+			}
+			if lib.ScInt(r2).Cmp(wr) != 0 || lib.ScInt(s2).Cmp(ws) != 0 || int(v2) != wid {
+				t.Fatalf("RFC 6979 mismatch after a failed entropy source for d=%x digest=%x: got (%x,%x,%d) want (%x,%x,%d)", d, digest2, lib.ScInt(r2), lib.ScInt(s2), v2, wr, ws, wid)
+			}
+		}()
 	}
 	if j < 32 {
-		if err == nil || gotSig {
+		if panicked == nil && (err == nil || gotSig) {
 			t.Fatalf("%s succeeded although the entropy source failed (%s) after %d bytes", api, ek, j)
 		}
 	} else if err != nil {
